@@ -37,6 +37,7 @@ type identInfo struct {
 	Name  string `json:"name"`
 	Shape string `json:"shape"`
 	Index int    `json:"index"` // field: position in the struct
+	Ptr   bool   `json:"ptr,omitempty"` // method: pointer receiver
 }
 
 func (i identInfo) key() string {
@@ -164,7 +165,8 @@ func inventory(pk *packages.Package, canon func(*types.TypeName) string) []ident
 				for i := 0; i < named.NumMethods(); i++ {
 					m := named.Method(i)
 					if renamable(m) {
-						add(identEntry{identInfo{Kind: "method", Owner: tname, Name: m.Name(), Shape: shapeOf(m.Type(), canon, 0)}, m})
+						_, isPtr := m.Type().(*types.Signature).Recv().Type().(*types.Pointer)
+						add(identEntry{identInfo{Kind: "method", Owner: tname, Name: m.Name(), Shape: shapeOf(m.Type(), canon, 0), Ptr: isPtr}, m})
 					}
 				}
 				if st, ok := named.Underlying().(*types.Struct); ok {
@@ -210,6 +212,9 @@ type Renaming struct {
 }
 
 func (r Renaming) String() string {
+	if r.Kind == "receiver" {
+		return r.To
+	}
 	o := ""
 	if r.Owner != "" {
 		o = r.Owner + "."
@@ -405,4 +410,44 @@ func renameOverlay(pkgs []*packages.Package, mapping map[types.Object]string) (m
 		overlay[fname] = out
 	}
 	return overlay, nil
+}
+
+// detectReceiverFlips fills recvCanon/recvFlip: methods present in the
+// inventory under the same owner and name whose receiver kind changed.
+func detectReceiverFlips(pkgs []*packages.Package) []string {
+	recvCanon, recvFlip = map[string]string{}, map[string]string{}
+	var ref map[string][]identInfo
+	if err := json.Unmarshal(identsRefJSON, &ref); err != nil {
+		return nil
+	}
+	var log []string
+	for _, pk := range pkgs {
+		want := map[string]identInfo{}
+		for _, w := range ref[pk.PkgPath] {
+			if w.Kind == "method" {
+				want[w.Owner+"."+w.Name] = w
+			}
+		}
+		for _, c := range inventory(pk, func(o *types.TypeName) string { return o.Name() }) {
+			w, ok := want[c.Owner+"."+c.Name]
+			if c.Kind != "method" || !ok || w.Ptr == c.Ptr || w.Shape != c.Shape {
+				continue
+			}
+			q := short(pk.PkgPath + "." + c.Owner)
+			if i := strings.LastIndex(q, "/"); i >= 0 {
+				q = q[i+1:]
+			}
+			val, ptr := "("+q+")."+c.Name, "(*"+q+")."+c.Name
+			if c.Ptr {
+				recvCanon[ptr] = val
+				recvFlip[val] = "deref"
+				log = append(log, fmt.Sprintf("method %s.%s has a pointer receiver in the current tree (value receiver in the inventory)", c.Owner, c.Name))
+			} else {
+				recvCanon[val] = ptr
+				recvFlip[ptr] = "addr"
+				log = append(log, fmt.Sprintf("method %s.%s has a value receiver in the current tree (pointer receiver in the inventory)", c.Owner, c.Name))
+			}
+		}
+	}
+	return log
 }
